@@ -1049,55 +1049,75 @@ fn fam_listneg(_func: Option<&str>, only: Option<u64>) {
 fn fam_listneg2(_func: Option<&str>, only: Option<u64>) {
     let mut rep = Rep::new("listneg2", "list_is_empty", only);
     let basics = [SubTypeTag::String, SubTypeTag::Number, SubTypeTag::Boolean];
-    type Shape = (Vec<SubTypeTag>, Option<SubTypeTag>);
+    // an item type is a set of basic tags (bit i = basics[i]): string, number, string | number
+    let items: [u8; 3] = [1, 2, 3];
+    type Shape = (Vec<u8>, Option<u8>);
     let mut shapes: Vec<Shape> = vec![];
+    // part 1: prefixes up to length 3 over {string, number}, rest in {none, string, number}
     for len in 0..=3usize {
         for code in 0..(1usize << len) {
-            let pre: Vec<SubTypeTag> = (0..len).map(|i| basics[(code >> i) & 1]).collect();
+            let pre: Vec<u8> = (0..len).map(|i| items[(code >> i) & 1]).collect();
             shapes.push((pre.clone(), None));
-            for r in [SubTypeTag::String, SubTypeTag::Number] { shapes.push((pre.clone(), Some(r))); }
+            for r in [1u8, 2u8] { shapes.push((pre.clone(), Some(r))); }
         }
     }
-    let in_shape = |s: &Shape, l: &[SubTypeTag]| -> bool {
+    let n1 = shapes.len();
+    // part 2: prefixes up to length 2 over {string, number, string | number}, rest also string | number
+    let mut shapes2: Vec<Shape> = vec![];
+    for len in 0..=2usize {
+        let mut idx = vec![0usize; len];
+        loop {
+            let pre: Vec<u8> = idx.iter().map(|i| items[*i]).collect();
+            shapes2.push((pre.clone(), None));
+            for r in items { shapes2.push((pre.clone(), Some(r))); }
+            let mut k = 0;
+            loop { if k == len { break; } idx[k] += 1; if idx[k] < 3 { break; } idx[k] = 0; k += 1; }
+            if k == len { break; }
+        }
+    }
+    let in_shape = |s: &Shape, l: &[usize]| -> bool {
         if l.len() < s.0.len() { return false; }
         if l.len() > s.0.len() && s.1.is_none() { return false; }
-        l.iter().enumerate().all(|(i, v)| if i < s.0.len() { *v == s.0[i] } else { Some(*v) == s.1 })
+        l.iter().enumerate().all(|(i, v)| { let m = if i < s.0.len() { s.0[i] } else { s.1.unwrap() }; (m >> *v) & 1 == 1 })
     };
-    let mut lists: Vec<Vec<SubTypeTag>> = vec![vec![]];
-    let mut frontier: Vec<Vec<SubTypeTag>> = vec![vec![]];
+    let mut lists: Vec<Vec<usize>> = vec![vec![]];
+    let mut frontier: Vec<Vec<usize>> = vec![vec![]];
     for _ in 0..5 {
         let mut next = vec![];
-        for l in &frontier { for b in basics { let mut l2 = l.clone(); l2.push(b); next.push(l2); } }
+        for l in &frontier { for b in 0..3usize { let mut l2 = l.clone(); l2.push(b); next.push(l2); } }
         lists.extend(next.iter().cloned());
         frontier = next;
     }
+    let code_of_mask = |m: u8| -> u32 { (0..3).filter(|i| (m >> i) & 1 == 1).map(|i| basics[i].code()).fold(0, |a, c| a | c) };
     let mk = |ctx: &mut SemTypeContext, s: &Shape| -> Rc<SemType> {
-        let pre: Vec<Rc<SemType>> = s.0.iter().map(|t| Rc::new(SemType::new_basic(t.code()))).collect();
-        let rest = s.1.map(|t| Rc::new(SemType::new_basic(t.code())));
+        let pre: Vec<Rc<SemType>> = s.0.iter().map(|t| Rc::new(SemType::new_basic(code_of_mask(*t)))).collect();
+        let rest = s.1.map(|t| Rc::new(SemType::new_basic(code_of_mask(t))));
         Rc::new(ctx.tuple(pre, rest))
     };
-    // membership table: shape index -> bitset over lists
-    let member: Vec<Vec<bool>> = shapes.iter().map(|s| lists.iter().map(|l| in_shape(s, l)).collect()).collect();
-    let n = shapes.len();
-    let thin: Vec<usize> = (0..n).filter(|i| i % 4 == 1).collect();
-    let mut ask = |rep: &mut Rep, a: usize, negs: &[usize]| {
+    let mut ask = |rep: &mut Rep, shapes: &Vec<Shape>, member: &Vec<Vec<bool>>, a: usize, negs: &[usize]| {
         if !rep.want() { return; }
         let spec = (0..lists.len()).all(|k| !member[a][k] || negs.iter().any(|b| member[*b][k]));
         let mut ctx = SemTypeContext::new();
-        let ta = mk(&mut ctx, &shapes[a]);
+        // the negatives are converted first, then the positive (atom order matters to the decider)
         let mut u: Option<Rc<SemType>> = None;
         for b in negs {
             let tb = mk(&mut ctx, &shapes[*b]);
             u = Some(match u { None => tb, Some(x) => match x.union(&tb) { Ok(y) => y, Err(_) => return } });
         }
-        let descr = format!("tuple shapes (prefix, rest): {:?} <: {}", shapes[a], negs.iter().map(|b| format!("{:?}", shapes[*b])).collect::<Vec<_>>().join(" | "));
+        let ta = mk(&mut ctx, &shapes[a]);
+        let descr = format!("tuple shapes (prefix, rest; item = set of {{string=1, number=2}}): {:?} <: {}", shapes[a], negs.iter().map(|b| format!("{:?}", shapes[*b])).collect::<Vec<_>>().join(" | "));
         match ta.is_subtype(&u.unwrap(), &mut ctx) {
             Ok(r) => if r != spec { rep.fail(descr, format!("is_subtype = {}", r), format!("{} (brute force over all lists of length <= 5)", spec)); },
             Err(e) => rep.fail(descr, format!("Err({})", e), "Ok".into()),
         }
     };
-    for a in 0..n { for b in 0..n { for c in 0..n { ask(&mut rep, a, &[b, c]); } } }
-    for a in 0..n { for b in &thin { for c in &thin { for d in &thin { ask(&mut rep, a, &[*b, *c, *d]); } } } }
+    let member1: Vec<Vec<bool>> = shapes.iter().map(|s| lists.iter().map(|l| in_shape(s, l)).collect()).collect();
+    let thin: Vec<usize> = (0..n1).filter(|i| i % 4 == 1).collect();
+    for a in 0..n1 { for b in 0..n1 { for c in 0..n1 { ask(&mut rep, &shapes, &member1, a, &[b, c]); } } }
+    for a in 0..n1 { for b in &thin { for c in &thin { for d in &thin { ask(&mut rep, &shapes, &member1, a, &[*b, *c, *d]); } } } }
+    let member2: Vec<Vec<bool>> = shapes2.iter().map(|s| lists.iter().map(|l| in_shape(s, l)).collect()).collect();
+    let n2 = shapes2.len();
+    for a in 0..n2 { for b in 0..n2 { for c in 0..n2 { ask(&mut rep, &shapes2, &member2, a, &[b, c]); } } }
     rep.print();
 }
 
@@ -1239,6 +1259,51 @@ fn fam_idxsig(_func: Option<&str>, only: Option<u64>) {
             match ta.is_subtype(&tbs, &mut ctx) {
                 Ok(r) => if r != spec { rep.fail(format!("exact object {:?} (true = the value 1, false = \"s\") against {}", o, descr), format!("is_subtype = {}", r), format!("{} (every property whose key lies in the key domain has a value of the value type)", spec)); },
                 Err(_) => {}   // refused (e.g. intersection of index signatures with different key types): not an answer
+            }
+        }
+    }
+    rep.print();
+}
+
+// C07 (mechanism `list_indexed_access`), bounded: `T[i]` and `T[i | j]` for tuple types T with a prefix up to
+// length 3 over {string, number, boolean} and an optional rest in {string, number}, i, j in 0..=4. Oracle: the item
+// type at each index (prefix[i], or the rest type beyond the prefix, or nothing when the tuple is closed there),
+// united over the indices; compared with the engine's is_same_type on these basic types.
+fn fam_listidx(_func: Option<&str>, only: Option<u64>) {
+    let mut rep = Rep::new("listidx", "list_indexed_access", only);
+    let basics = [SubTypeTag::String, SubTypeTag::Number, SubTypeTag::Boolean];
+    let mut shapes: Vec<(Vec<usize>, Option<usize>)> = vec![];
+    for len in 0..=3usize {
+        let mut idx = vec![0usize; len];
+        loop {
+            for r in [None, Some(0usize), Some(1usize)] { shapes.push((idx.clone(), r)); }
+            let mut k = 0;
+            loop { if k == len { break; } idx[k] += 1; if idx[k] < 3 { break; } idx[k] = 0; k += 1; }
+            if k == len { break; }
+        }
+    }
+    let mut index_sets: Vec<Vec<i64>> = vec![];
+    for i in 0..=4i64 { index_sets.push(vec![i]); for j in (i + 1)..=4 { index_sets.push(vec![i, j]); } }
+    for (pre, rest) in &shapes {
+        for ix in &index_sets {
+            if !rep.want() { continue; }
+            let mut ctx = SemTypeContext::new();
+            let t = Rc::new(ctx.tuple(pre.iter().map(|b| Rc::new(SemType::new_basic(basics[*b].code()))).collect(), rest.map(|b| Rc::new(SemType::new_basic(basics[b].code())))));
+            let mut expect_bits = 0u32;
+            for i in ix {
+                let i = *i as usize;
+                if i < pre.len() { expect_bits |= basics[pre[i]].code(); } else if let Some(r) = rest { expect_bits |= basics[*r].code(); }
+            }
+            let expected = Rc::new(SemType::new_basic(expect_bits));
+            let idx_t = Rc::new(SemType::new_complex(0, vec![Rc::new(ProperSubtype::Number { allowed: true, values: ix.iter().map(|i| num(*i)).collect() })]));
+            let descr = format!("tuple (prefix, rest) = ({:?}, {:?}) over [string, number, boolean], indexed by {:?}", pre, rest, ix);
+            match ctx.indexed_access(t, idx_t) {
+                Ok(r) => match r.is_same_type(&expected, &mut ctx) {
+                    Ok(true) => {}
+                    Ok(false) => rep.fail(descr, format!("indexed access = {:?}", r), format!("{:?} (the item types at the indices)", expected)),
+                    Err(e) => rep.fail(descr, format!("is_same_type Err({})", e), "true".into()),
+                },
+                Err(_) => {}   // refused: not an answer
             }
         }
     }
@@ -1561,6 +1626,7 @@ fn main() {
         "mapneg" => fam_mapneg(f, only),
         "listneg2" => fam_listneg2(f, only),
         "idxsig" => fam_idxsig(f, only),
+        "listidx" => fam_listidx(f, only),
         "refs" => fam_refs(f, only, false, false),
         "refspanic" => fam_refs(f, only, true, false),
         "refsshared" => fam_refs(f, only, false, true),
